@@ -7,7 +7,7 @@ from hypothesis import strategies as st
 
 from .. import hist, wire
 from ..engine import ok, require
-from ..simkit import ADDRS, ServerRec, Sim, cfg, desc_semantic, install_random, lib_option, make_sd, sd, sd_bytes, sent_entries, timings
+from ..simkit import ADDRS, HarnessError, ServerRec, Sim, cfg, desc_semantic, install_random, lib_option, make_sd, sd, sd_bytes, sent_entries, timings
 from ..vloop import RES
 from .c10 import OPTS, _timing
 
@@ -164,6 +164,8 @@ def run_case(case):
         require(not sim.loop.errors, "C12.loop-error", lambda: str(sim.loop.errors[:2]))
         require(not sim.loop.task_errors(), "C12.loop-error", lambda: str(sim.loop.task_errors()[:2]))
 
+        if not queued and any(e["type"] == wire.OFFER and e["ttl"] for e in sent_entries(prot.transport)):
+            raise HarnessError("offers were transmitted but ServiceAnnouncer.queue_send was never called: the observation point of this check is gone")
         # ---- expectation per (find, instance): "yes" / "no" / "either", with the due time of the answer
         must = collections.Counter()   # (requester, instance, due bucket) -> count
         may = collections.Counter()
